@@ -3,7 +3,7 @@ use std::{num::NonZeroU16, num::NonZeroU32};
 use ntex_bytes::{Buf, BufMut, BytePages, ByteString, Bytes, BytesMut};
 
 use crate::error::{DecodeError, EncodeError};
-use crate::types::{QoS, packet_type};
+use crate::types::{MAX_PACKET_SIZE, QoS, packet_type};
 use crate::utils::{self, Decode, Encode, Property, write_variable_length};
 use crate::v5::codec::{UserProperties, encode, property_type as pt};
 
@@ -214,6 +214,10 @@ impl encode::EncodeLtd for PublishProperties {
         encode::encode_property_default(&self.is_utf8_payload, false, pt::UTF8_PAYLOAD, buf)?;
         encode::encode_property(&self.response_topic, pt::RESP_TOPIC, buf)?;
         for sub_id in &self.subscription_ids {
+            // subscription identifier is a variable byte integer
+            if sub_id.get() > MAX_PACKET_SIZE {
+                return Err(EncodeError::MalformedPacket);
+            }
             buf.put_u8(pt::SUB_ID);
             write_variable_length(sub_id.get(), buf);
         }
